@@ -71,6 +71,23 @@ def _comp_filter_eval(v, assume):
     return v
 
 
+def surface_helper(pkg) -> str:
+    """Name of the private grain method that builds the shared surface-reaction rate (called as self.<name>(reac) from
+    rate_surface_twobody / rate_reactive_desorption) -- found by role so that renaming it is not an analysis failure."""
+    import ast as _ast
+    for cls in ("HH93Grain", "Grain"):
+        if cls not in pkg.classes:
+            continue
+        fn = pkg.classes[cls].methods.get("rate_surface_twobody")
+        if fn is None:
+            continue
+        for c in _ast.walk(fn):
+            if isinstance(c, _ast.Call) and isinstance(c.func, _ast.Attribute) and isinstance(c.func.value, _ast.Name) and c.func.value.id == "self" \
+                    and c.func.attr.startswith("_") and not c.func.attr.startswith("__") and c.func.attr in pkg.classes[cls].methods:
+                return c.func.attr
+    return "_rate_surface"
+
+
 class RateModel:
     def __init__(self, tree):
         self.tree = tree
@@ -154,7 +171,7 @@ class RateModel:
             raise AnalysisError(f"{cls}.{meth} not found", (self.pkg.cls(cls).file, 0), MISSING)
         key = (dc, meth)
         if key not in self._flows:
-            no_inline = {"_beautify", "_create_species", "_rate_surface", "_parse_string", "register", "unregister"}
+            no_inline = {"_beautify", "_create_species", surface_helper(self.pkg), "_parse_string", "register", "unregister"}
 
             def resolver(name, cls=cls):
                 if name in no_inline or not name.startswith("_") or name.startswith("__"):
